@@ -43,3 +43,12 @@ Theorem x_walker_shape_ok :
    "letgitignore=parse_ignore(&source,config)?;"])%string.
 Proof. repeat split; reflexivity. Qed.
 
+
+(* ---- ignore_filter, translated: the ONE query it puts to the matcher is about the walked entry's own path and the walked
+   entry's own type (walkdir's file_type: the link itself unless the iterator follows links, which by x_walker_shape_ok it does
+   exactly under --dereference) — the flag Walker.tree_is_dir models; and the only entry it lets through unasked is the
+   source root ---- *)
+Theorem x_ignore_filter_query_ok :
+  x_ignore_filter_query = ("entry.path()", "entry.file_type().is_dir()")%string /\
+  x_ignore_filter_unasked = ["entry.depth()==0"]%string.
+Proof. split; reflexivity. Qed.
